@@ -19,6 +19,10 @@ def _CE(msg):
     return CannotEvaluate(msg)
 
 
+_PURE_STR = {"casefold", "title", "capitalize", "swapcase", "center", "ljust", "rjust", "partition", "rpartition", "rfind", "rindex",
+             "removeprefix", "removesuffix", "expandtabs", "splitlines", "rsplit", "isidentifier", "isprintable", "istitle"}
+
+
 def call_ext(it, ref, args, kwargs, node):
     from . import ops
     name = ref.name
@@ -34,6 +38,14 @@ def call_ext(it, ref, args, kwargs, node):
     if recv is not None:
         table = {"str": _STR, "list": _LIST, "dict": _DICT, "set": _SET, "Pattern": _PATTERN, "Match": _MATCH,
                  "sym": _SYMM, "unknown": _UNK, "Path": _PATHM}.get(head)
+        if head == "str" and (table is None or meth not in table):
+            from . import ops
+            rv = ops.strval(recv)
+            if isinstance(rv, str) and meth in _PURE_STR and all(isinstance(a, (str, int, type(None))) for a in args) and not kwargs:
+                try:
+                    return getattr(str, meth)(str(rv), *args)
+                except (ValueError, TypeError, IndexError) as e:
+                    it.may_raise(type(e).__name__, node, str(e), certain=True)
         if table is None or meth not in table:
             raise _CE(f"method {name} is not modelled")
         return table[meth](it, recv, args, kwargs, node)
@@ -767,7 +779,12 @@ def _s_encode(it, recv, args, kwargs, node):
     raise _CE("encode")
 
 
+def _s_getnewargs(it, recv, args, kwargs, node):
+    return (_sv(recv),)
+
+
 _STR = {
+    "__getnewargs__": _s_getnewargs,
     "join": _s_join, "upper": _s_upper, "lower": _s_lower, "zfill": _s_zfill, "lstrip": _strip("lstrip"),
     "rstrip": _strip("rstrip"), "strip": _strip("strip"), "startswith": _s_startswith, "endswith": _s_endswith,
     "index": _s_index, "find": _s_find, "format": _s_format, "replace": _s_replace, "split": _s_split,
@@ -1107,6 +1124,53 @@ def _pycountry_get(it, args, kwargs, node):
     return Sym("pycountry", ops.freeze(ops.strval(key)))
 
 
+def _deepcopy(it, args, kwargs, node):
+    """copy.deepcopy: immutables are shared, containers rebuilt, package objects through their own __deepcopy__."""
+    x = args[0]
+    memo = args[1] if len(args) > 1 else kwargs.get("memo")
+    if isinstance(x, Obj):
+        r = x.cls.lookup(it.program, "__deepcopy__")
+        if r is not None and r[1] == "method":
+            return it.call_func(r[2], [x, memo if memo is not None else {}], {}, node)
+        return _reduce_copy(it, x, node, deep=True)
+    if isinstance(x, dict):
+        return {k: _deepcopy(it, [v, memo], {}, node) for k, v in x.items()}
+    if isinstance(x, list):
+        return [_deepcopy(it, [v, memo], {}, node) for v in x]
+    if isinstance(x, tuple):
+        return tuple(_deepcopy(it, [v, memo], {}, node) for v in x)
+    return x
+
+
+def _reduce_copy(it, x, node, deep):
+    """object.__reduce_ex__(4) protocol: cls.__new__(cls, *__getnewargs__()), then the instance dict."""
+    from .values import ClsRef
+    ga = it.getattr(x, "__getnewargs__", node) if (x.cls.lookup(it.program, "__getnewargs__") or x.strval is not None) else None
+    newargs = list(it.call(ga, [], {}, node)) if ga is not None else []
+    new = it.getattr(ClsRef(x.cls), "__new__", node) if x.cls.lookup(it.program, "__new__") else None
+    if new is not None:
+        obj = it.call(new, [ClsRef(x.cls)] + newargs, {}, node)
+    else:
+        obj = Obj(x.cls, strval=x.strval)
+    for k, v in x.attrs.items():
+        obj.attrs[k] = _deepcopy(it, [v, None], {}, node) if deep else v
+    return obj
+
+
+def _copy(it, args, kwargs, node):
+    x = args[0]
+    if isinstance(x, Obj):
+        r = x.cls.lookup(it.program, "__copy__")
+        if r is not None and r[1] == "method":
+            return it.call_func(r[2], [x], {}, node)
+        return _reduce_copy(it, x, node, deep=False)
+    if isinstance(x, dict):
+        return dict(x)
+    if isinstance(x, list):
+        return list(x)
+    return x
+
+
 def _defaultdict(it, args, kwargs, node):
     raise _CE("defaultdict")
 
@@ -1117,4 +1181,5 @@ _EXT = {
     "itertools.cycle": _cycle, "itertools.chain": _chain, "itertools.chain.from_iterable": _chain_from_iterable,
     "operator.itemgetter": _itemgetter, "typing.cast": _cast, "warnings.warn": _warn,
     "pycountry.countries.get": _pycountry_get, "collections.defaultdict": _defaultdict,
+    "copy.deepcopy": _deepcopy, "copy.copy": _copy,
 }
